@@ -762,6 +762,34 @@ theorem iter_life (c : Conn) (a : List Src) (hi : LifeInv c) : LifeInv (iter c a
     · exact h1
     · exact maybeDestroy_life _ h1
 
+theorem removeChannel_st (c : Conn) : (removeChannel c).st = c.st := by
+  unfold removeChannel; split <;> rfl
+theorem removeChannel_alive (c : Conn) : (removeChannel c).alive = c.alive := by
+  unfold removeChannel; split <;> rfl
+theorem removeChannel_reg (c : Conn) (h : (removeChannel c).dead = false) : (removeChannel c).registered = false := by
+  unfold removeChannel at *
+  split
+  · rename_i hg; rw [if_pos hg] at h; simp [emit] at h
+  · rfl
+
+theorem connectDestroyed_alive (c : Conn) : (connectDestroyed c).alive = c.alive := by
+  unfold connectDestroyed
+  split
+  · rw [removeChannel_alive, callback_alive]; rfl
+  · exact removeChannel_alive c
+theorem connectDestroyed_st (c : Conn) (he : c.st ≠ .kConnecting) : (connectDestroyed c).st = .kDisconnected := by
+  unfold connectDestroyed
+  split
+  · rw [removeChannel_st]; exact callback_st_down _ _ _ rfl
+  · rename_i hg
+    rw [removeChannel_st]
+    cases hs : c.st <;> simp_all [destroyedWhileConnected]
+theorem connectDestroyed_reg (c : Conn) (h : (connectDestroyed c).dead = false) : (connectDestroyed c).registered = false := by
+  unfold connectDestroyed at *
+  split
+  · rename_i hg; rw [if_pos hg] at h; exact removeChannel_reg _ h
+  · rename_i hg; rw [if_neg hg] at h; exact removeChannel_reg _ h
+
 /-- inputs other than a second hand-over -/
 def Input.notEstablish : Input → Prop
   | .establish => False
@@ -797,7 +825,18 @@ theorem step_life (c : Conn) (i : Input) (hne : i.notEstablish) (hi : LifeInv c)
         · exact hi.quiet
         · intro _ _ h; simp at h
         · intro h; simp at h; rw [ha] at h; cases h
-      sorry
+      have hal := connectDestroyed_alive c
+      have hst := connectDestroyed_st c hi.established
+      have hrg := connectDestroyed_reg c hcd.notDead
+      constructor
+      · have : phaseOf { connectDestroyed c with owner := false } = phaseOf (connectDestroyed c) := rfl
+        rw [this]; exact hcd.life
+      · exact hcd.notDead
+      · exact hcd.established
+      · intro _; exact hst
+      · exact hcd.quiet
+      · intro _ _ h; simp [hrg] at h
+      · intro h; simp [hal, ha] at h
   | hook k a => exact hi.frame ⟨rfl, rfl, rfl, rfl, rfl, rfl, rfl, rfl, rfl, rfl⟩
   | setMark n => exact hi.frame ⟨rfl, rfl, rfl, rfl, rfl, rfl, rfl, rfl, rfl, rfl⟩
   | setRetrieve n => exact hi.frame ⟨rfl, rfl, rfl, rfl, rfl, rfl, rfl, rfl, rfl, rfl⟩
